@@ -100,6 +100,7 @@ int harness_main(void) {
   rt_start();
   fiber_semaphore_init(&S, initial);
   fmc_focus(&S, sizeof S);
+  rt_pin_begin();
   fmc_begin();
   int gen = fmc_param("gen", 0);
   if (gen) {
@@ -116,7 +117,8 @@ int harness_main(void) {
   }
   int order[8];
   rt_creation_order(g_nf, order);
-  for (int i = 0; i < g_nf; i++) fiber_detach(fiber_create(STK, body, (void*)(intptr_t)order[i]));
+  for (int i = 0; i < g_nf; i++) fiber_detach(rt_create(order[i], STK, body, (void*)(intptr_t)order[i]));
+  rt_pin_end();
   // -Dspread=1: the main fiber never switches fibers (engine-level yields only), so with N=3 the
   // fibers are all stolen and run by the two OTHER kernel threads from the first step on; no
   // pre-emption is spent on getting them onto different threads
